@@ -12,7 +12,8 @@
  *   drain <max> <len>...      call (cycling through the lens) until idle / error / max calls
  *   enc <b64> <hex>           webSocketsEncode on a context with base64=<b64>
  *   b64e <hex> | b64d <hex> <targsize> | sha1 <hex>
- *   hs <hexrequest>           real connection over a socketpair with the request as first bytes
+ *   hs <hexrequest> [closed]  real connection over a socketpair with the request as first bytes
+ *                             (closed: the client half-closes after them; else it just stays silent)
  *   wx <b64> <len> <seed>     rfbWriteExact of len pseudo-random bytes on a WebSocket connection
  * Part 2 (end to end, checked by the Python oracle): conn / seg / rs / pump / scut / out, see below.
  */
@@ -24,6 +25,10 @@
 #include <dlfcn.h>
 #include <sys/select.h>
 #include <stdarg.h>
+#include <sys/wait.h>
+#include <sys/resource.h>
+#include <sys/time.h>
+#include <signal.h>
 
 /* ------------------------------------------------------------------ decoder through the callback */
 static ws_ctx_t *W;
@@ -156,6 +161,15 @@ int select(int nfds, fd_set *r, fd_set *w, fd_set *x, struct timeval *t) {
       }
   return real(nfds, r, w, x, t);
 }
+/* interposed setsockopt: on a real TCP connection TCP_NODELAY succeeds and leaves errno alone; on the
+   AF_UNIX socketpair it would fail and overwrite the stale errno the `peek` op wants to study */
+#include <netinet/in.h>
+int setsockopt(int fd, int level, int name, const void *val, socklen_t len) {
+  static int (*real)(int, int, int, const void *, socklen_t);
+  if (!real) real = (int (*)(int, int, int, const void *, socklen_t))dlsym(RTLD_NEXT, "setsockopt");
+  if (level == IPPROTO_TCP) return 0;
+  return real(fd, level, name, val, len);
+}
 /* interposed read: clamp the size of reads on a server-side socket to the scripted sizes */
 ssize_t read(int fd, void *buf, size_t n) {
   static ssize_t (*real)(int, void *, size_t);
@@ -203,6 +217,25 @@ static void e2e_close(e2e_t *e) {
   if (e->c.cl) rfbProcessEvents(scr, 0);
   free(e->segs.p); free(e->ev.p); free(e->c.out.p);
   memset(e, 0, sizeof *e);
+}
+
+/* like vh_connect_pre, optionally half-closing the client side after the first bytes so that the
+   server's next read returns 0 */
+static int c09_connect(rfbScreenInfoPtr sc, vh_conn *c, const void *pre, size_t prelen, int shut) {
+  int sv[2];
+  memset(c, 0, sizeof *c);
+  if (socketpair(AF_UNIX, SOCK_STREAM, 0, sv) < 0) return -1;
+  fcntl(sv[1], F_SETFL, fcntl(sv[1], F_GETFL) | O_NONBLOCK);
+  { int sz = 4 << 20; setsockopt(sv[0], SOL_SOCKET, SO_SNDBUF, &sz, sizeof sz);
+    setsockopt(sv[1], SOL_SOCKET, SO_SNDBUF, &sz, sizeof sz);
+    setsockopt(sv[1], SOL_SOCKET, SO_RCVBUF, &sz, sizeof sz);
+    setsockopt(sv[0], SOL_SOCKET, SO_RCVBUF, &sz, sizeof sz); }
+  c->peer = sv[1]; c->srvfd = sv[0];
+  if (prelen) { if (write(sv[1], pre, prelen) != (ssize_t)prelen) return -1; }
+  if (shut) shutdown(sv[1], SHUT_WR);
+  c->cl = rfbNewClient(sc, sv[0]);
+  if (c->cl) { c->cl->clientData = c; c->cl->clientGoneHook = vh_gone_hook; }
+  return 0;
 }
 
 static long find_hdr_end(const unsigned char *p, size_t n) {
@@ -296,7 +329,7 @@ int main(void) {
       if (k < 0) { puts("bad-op"); continue; }
       hash_sha1(h, hb, (size_t)k);
       vh_puthex(stdout, h, sizeof h); putchar('\n');
-    } else if ((!strcmp(tok[0], "hs") && n == 2) || (!strcmp(tok[0], "wx") && n == 4)) {
+    } else if ((!strcmp(tok[0], "hs") && (n == 2 || (n == 3 && !strcmp(tok[2], "closed")))) || (!strcmp(tok[0], "wx") && n == 4)) {
       /* a real connection: upgrade request as the first bytes, response read back */
       static const char *req0 = "GET / HTTP/1.1\r\nHost: h\r\nOrigin: o\r\nSec-WebSocket-Key: dGhlIHNhbXBsZSBub25jZQ==\r\nSec-WebSocket-Version: 13\r\nSec-WebSocket-Protocol: %s\r\n\r\n";
       e2e_t *e = &E[MAXC - 1]; long k, he; int ishs = tok[0][0] == 'h';
@@ -305,7 +338,7 @@ int main(void) {
       else k = snprintf((char *)hb, hcap, req0, atoi(tok[1]) ? "base64" : "binary");
       if (k < 0) { puts("bad-op"); continue; }
       memset(e, 0, sizeof *e); e->used = 1;
-      vh_connect_pre(scr, &e->c, hb, (size_t)k);
+      c09_connect(scr, &e->c, hb, (size_t)k, ishs && n == 3);
       vh_drain(&e->c);
       he = find_hdr_end(e->c.out.p, e->c.out.n);
       if (ishs) {
@@ -330,6 +363,46 @@ int main(void) {
         free(buf);
       }
       e2e_close(e);
+    }
+    /* peek <hexpre|-> <errno: 0|EAGAIN|EINTR> <then-hex|-> <delay-ms>: what rfbNewClient's webSocketsCheck does
+       when only the first bytes of the client's greeting have arrived and errno holds a stale
+       value.  Runs in a child process with a wall-clock limit so that a spin is an observation
+       (CPU time consumed), not a hang of the harness. */
+    else if (!strcmp(tok[0], "peek") && n == 5) {
+      long k = vh_unhex(tok[1], hb, hcap); int en = !strcmp(tok[2], "EAGAIN") ? EAGAIN : !strcmp(tok[2], "EINTR") ? EINTR : 0;
+      static unsigned char later[64]; long k2 = vh_unhex(tok[3], later, sizeof later); int delay = atoi(tok[4]);
+      int pfd[2]; pid_t pid; int status = 0, waited = 0; struct rusage ru; char line2[128]; ssize_t got;
+      need_screen();
+      if (k < 0 || k2 < 0 || pipe(pfd) < 0) { puts("bad-op"); continue; }
+      fflush(stdout);
+      pid = fork();
+      if (pid == 0) {
+        e2e_t *e = &E[MAXC - 1]; struct timeval t0, t1; long ms; char out[128]; int sv[2], len;
+        close(pfd[0]);
+        memset(e, 0, sizeof *e); e->used = 1;
+        socketpair(AF_UNIX, SOCK_STREAM, 0, sv);
+        fcntl(sv[1], F_SETFL, fcntl(sv[1], F_GETFL) | O_NONBLOCK);
+        if (k) { if (write(sv[1], hb, (size_t)k) < 0) _exit(3); }
+        if (k2 && delay > 0) {               /* a second process delivers the rest later */
+          if (fork() == 0) { usleep((useconds_t)delay * 1000); if (write(sv[1], later, (size_t)k2) < 0) _exit(3); _exit(0); }
+        }
+        gettimeofday(&t0, NULL);
+        errno = en;
+        e->c.cl = rfbNewClient(scr, sv[0]);
+        gettimeofday(&t1, NULL);
+        ms = (t1.tv_sec - t0.tv_sec) * 1000 + (t1.tv_usec - t0.tv_usec) / 1000;
+        len = snprintf(out, sizeof out, "returned client=%s ws=%d ms=%s", e->c.cl ? "ok" : "null",
+                       (e->c.cl && e->c.cl->wsctx) ? 1 : 0, ms < 60 ? "<60" : ms < 400 ? "60..400" : ">=400");
+        if (write(pfd[1], out, (size_t)len) < 0) _exit(3);
+        _exit(0);
+      }
+      close(pfd[1]);
+      while (waited < 1500 && waitpid(pid, &status, WNOHANG) == 0) { usleep(10000); waited += 10; }
+      if (waited >= 1500) { kill(pid, SIGKILL); waitpid(pid, &status, 0); }
+      getrusage(RUSAGE_CHILDREN, &ru);
+      got = read(pfd[0], line2, sizeof line2 - 1); close(pfd[0]);
+      if (got > 0) { line2[got] = 0; printf("peek %s\n", line2); }
+      else printf("peek hung after 1500 ms (killed)\n");
     }
     /* ---------------- end to end ---------------- */
     else if (!strcmp(tok[0], "conn") && n >= 3) {
